@@ -287,6 +287,7 @@ pub fn explore(run: &WrRun) -> Outcome {
     }
     crate::watchdog::leave();
     out.cov.states += nodes.len() as u64;
+    out.cov.traces_validated += out.cov.transitions;
     out
 }
 
